@@ -192,7 +192,7 @@ class _CallableObject:
 
 
 # how the wrapped client exposes the operation: an ordinary method, or some other callable attribute
-INNER_KINDS = ("instance-function", "partial", "staticmethod", "callable-object")
+INNER_KINDS = ("instance-function", "partial", "staticmethod", "callable-object", "instance-only")
 
 
 def make_inner(kind, seq, log, name="op"):
@@ -203,6 +203,13 @@ def make_inner(kind, seq, log, name="op"):
         cls = type("InnerWithStatic", (Inner,), {name: staticmethod(lambda *a, **kw: box[0]._next(name, a, kw))})
         inner = cls(seq, log)
         box.append(inner)
+        return inner
+    if kind == "instance-only":
+        # a proxy-style client: the operation exists on the object (bound in its constructor), not on its class
+        bare = type("InnerWithoutOp", (object,), {k: v for k, v in vars(Inner).items()
+                                                  if k != name and k not in ("__dict__", "__weakref__")})
+        inner = bare(seq, log)
+        setattr(inner, name, lambda *a, **kw: inner._next(name, a, kw))
         return inner
     inner = Inner(seq, log)
     if kind == "instance-function":
